@@ -9,6 +9,9 @@ O13.3 uniformity         sized int / float / decimal accepted wherever the gener
 O13.4 const              const accepted wherever a column is (same base result); parameters
                          declared const reject columns; result const iff element-wise and all
                          arguments const
+O13.5 route / history    one deferred expression object per operator (C.a0, C.a1, literals), reused
+                         in `mutate` over tables of every representable column-type tuple in a
+                         seeded order, resolves like the eager route does
 """
 
 import hashlib
@@ -285,6 +288,86 @@ def check_relations(table):
     return out
 
 
+# ------------------------------------------------------------------------------------------
+# O13.5 route agreement and history independence: the same type tuples resolved the way a user
+# reaches them with deferred columns - ONE expression object per operator, built from `C.a0`,
+# `C.a1`, applied with `mutate` to tables whose columns have the tuple's types, in a seeded
+# order - give the outcome of the eager route (table column 2), whatever was resolved before
+# ------------------------------------------------------------------------------------------
+_LITS = {"const Int64": 1, "const Float64": 1.5, "const String(None)": "a", "const Bool": True}
+
+
+def deferred_route_check(table, perm: int):
+    import random
+
+    import polars as pl
+
+    import pydiverse.transform as pdt
+    from pydiverse.transform import C
+
+    plain = []
+    for t in universe():
+        if isinstance(t, T.Const):
+            continue
+        try:
+            tb = pdt.Table(pl.DataFrame(schema={"a0": t.to_polars()}), name="T")
+            if tname(tb.a0.dtype()) == tname(t):
+                plain.append(t)
+        except Exception:  # noqa: BLE001
+            continue
+    tables = {}
+
+    def tab(sig):
+        k = tuple(tname(t) for t in sig)
+        if k not in tables:
+            tables[k] = pdt.Table(pl.DataFrame(schema={f"a{i}": t.to_polars() for i, t in enumerate(sig)}), name="T")
+        return tables[k]
+
+    cases = []
+    for name, op in operators().items():
+        if op.ftype == Ftype.WINDOW or name not in table or name in ("ascending", "descending", "nulls_first", "nulls_last"):
+            continue  # (ordering markers are only legal inside `arrange`: C14, not a typing question)
+        ars = arities(op)
+        if 1 in ars:
+            e = ColFn(op, C.a0)
+            cases += [(name, e, (t,), ",".join([tname(t)])) for t in plain]
+        if 2 in ars:
+            e = ColFn(op, C.a0, C.a1)
+            cases += [(name, e, (a, b), f"{tname(a)},{tname(b)}") for a in plain for b in plain]
+            for lk, lv in _LITS.items():
+                try:
+                    el = ColFn(op, C.a0, lv)
+                except Exception:  # noqa: BLE001
+                    continue
+                cases += [(name, el, (a,), f"{tname(a)},{lk}") for a in plain]
+    random.Random(f"deferred:{perm}").shuffle(cases)
+    out = []
+    n = 0
+    for name, e, sig, key in cases:
+        want = table[name].get(key)
+        if want is None or not want[1]:
+            continue
+        n += 1
+        try:
+            r = tab(sig) >> pdt.mutate(z__=e)
+            got = "= " + tname(r.z__.dtype())
+        except T.DataTypeError:
+            got = "reject"
+        except Exception as ex:  # noqa: BLE001
+            got = "!" + type(ex).__name__
+        if got != want[1]:
+            out.append(
+                dict(
+                    oracle="O13.5",
+                    op=name,
+                    sig=key,
+                    what=f"`{name}`({key}) through a reused deferred expression (C.a0, ...) in `mutate` gives {got}, the eager route gives {want[1]}",
+                    features=dict(kind="route", eager=want[1].split(" ")[0], deferred=got.split(" ")[0]),
+                )
+            )
+    return out, n
+
+
 def worker(job, out):
     """job: perms = list of permutation seeds (0 = canonical). Writes one record per perm."""
     t0 = time.time()
@@ -295,9 +378,13 @@ def worker(job, out):
         table = compute_table(only_ops=job.get("only_ops"))
         dig = digest_table(table)
         viol = check_relations(table)
+        n_def = 0
+        if not job.get("only_ops") or job.get("deferred"):
+            dv, n_def = deferred_route_check(table, perm)
+            viol += dv
         n_entries = sum(len(r) for r in table.values())
         n_acc = sum(1 for r in table.values() for v in r.values() if v[0].startswith("= "))
-        rec = dict(type="conf", perm=perm, nodes_permuted=n_perm, digests=dig, n_entries=n_entries, n_accepted=n_acc, violations=viol[:400], n_violations=len(viol), wall=time.time() - t1)
+        rec = dict(type="conf", perm=perm, nodes_permuted=n_perm, digests=dig, n_entries=n_entries, n_accepted=n_acc, n_deferred=n_def, violations=viol[:400], n_violations=len(viol), wall=time.time() - t1)
         if job.get("dump_ops"):
             rec["rows"] = {k: table[k] for k in job["dump_ops"] if k in table}
         if job.get("samples"):
